@@ -1,6 +1,8 @@
 package schist
 
 import (
+	"0chain.net/chaincore/block"
+	"0chain.net/chaincore/transaction"
 	"flag"
 	"fmt"
 	"os"
@@ -11,6 +13,7 @@ import (
 
 	"verifh/mon"
 	"verifh/obs"
+	"verifh/snap"
 	"verifh/world"
 )
 
@@ -161,6 +164,8 @@ func classifyCrash(prop, log string) (sig, detail string) {
 	switch {
 	case strings.Contains(log, "Transfer assertion failed") && (prop == "C01" || prop == "C05"):
 		return "own-assertion:transfer", l
+	case (strings.Contains(log, "get trie node not copyable") || strings.Contains(log, "get trie node copy from failed")) && prop == "C07":
+		return "own-panic:get-trie-node-not-copyable", l
 	case strings.Contains(log, "distribute rewards error") && prop == "C10":
 		return "own-assertion:distribute-rewards", l
 	}
@@ -195,6 +200,9 @@ func childMain(prop, tier string, idx, nh, nl int) (code int) {
 		hostile := []float64{0.0, 0.15, 0.3, 0.5}[r.Intn(4)]
 		h.Vars["hostile"] = hostile
 		setupHistory(h, mons)
+		if prop == "C07" && j%2 == 0 {
+			forkScenarioC07(h, mons)
+		}
 		for k := 0; k < nl; k++ {
 			op := ops[r.Pick(wts)]
 			c := op.Build(h, r)
@@ -212,6 +220,9 @@ func childMain(prop, tier string, idx, nh, nl int) (code int) {
 			}
 			if h.TxInBlk >= 1+r.Intn(5) {
 				h.EndBlock()
+				if prop == "C07" && r.Chance(0.25) {
+					h.forkSibling(r, ops, wts, mons)
+				}
 				h.advanceTime(r)
 			}
 		}
@@ -258,4 +269,62 @@ func (h *Hist) advanceTime(r *mon.Rand) {
 	default:
 		h.W.Advance(time.Duration(1+r.Intn(30)) * time.Second)
 	}
+}
+
+// forkSibling builds and commits a sibling of the current head (a block on the head's parent), as happens whenever two
+// generators propose in one round. Only the stateless monitors judge it (the history-level reference models follow the main chain).
+func (h *Hist) forkSibling(r *mon.Rand, ops []OpDef, wts []int, mons []Monitor) {
+	if h.BC != nil || h.Head.PrevBlock == nil || h.Head.PrevBlock.ClientState == nil {
+		return
+	}
+	var stateless []Monitor
+	for _, m := range mons {
+		switch m.Prop {
+		case "C01", "C02", "C04", "C05", "C07":
+			stateless = append(stateless, m)
+		}
+	}
+	saveHead, saveCur, saveRef, saveRound, saveLog := h.Head, h.Cur, h.RefNonce, h.Round, len(h.Log)
+	parent := h.Head.PrevBlock
+	cur, err := snapTake(parent)
+	if err != nil {
+		return
+	}
+	h.Head, h.Cur, h.Round = parent, cur, parent.Round
+	h.RefNonce = refNonces(h, cur)
+	n := 1 + r.Intn(4)
+	for i := 0; i < n; i++ {
+		c := ops[r.Pick(wts)].Build(h, r)
+		if c == nil {
+			continue
+		}
+		c.After = nil // the generator's memory follows the main chain only
+		c.Name = "fork:" + c.Name
+		h.Submit(c, stateless)
+	}
+	h.EndBlock()
+	if r := h.Runs["C07"]; r != nil {
+		r.Count("sibling_blocks", 1)
+	}
+	h.Head, h.Cur, h.RefNonce, h.Round = saveHead, saveCur, saveRef, saveRound
+	_ = saveLog
+}
+
+func snapTake(b *block.Block) (snap.Snapshot, error) { return snap.Take(b.ClientState) }
+
+func refNonces(h *Hist, cur snap.Snapshot) map[string]int64 {
+	out := map[string]int64{}
+	for p, raw := range cur {
+		if h.Obs.Lookup(p) != nil {
+			continue
+		}
+		if cl, ok := snap.DecodeClient(raw); ok {
+			out[p] = cl.Nonce
+		}
+	}
+	return out
+}
+
+func dataSpec(h *Hist) world.TxnSpec {
+	return world.TxnSpec{From: h.W.Clients[1], Type: transaction.TxnTypeData, Data: "unrelated"}
 }
